@@ -2,7 +2,7 @@
    still has exactly the statement written here. *)
 From Coq Require Import ZArith QArith String List Bool.
 Import ListNotations.
-From NV Require Import Crash.Outcome Crash.NumOps Crash.Index Crash.Lexer Crash.LexerProofs Crash.Span Crash.NameReg Crash.Defects Crash.MergeDispatch Crash.TomlFloats Crash.Ledger Gen.PanicSites Props.C10.
+From NV Require Import Crash.Outcome Crash.NumOps Crash.Index Crash.Lexer Crash.LexerProofs Crash.Span Crash.NameReg Crash.Defects Crash.MergeDispatch Crash.TomlFloats Crash.TypePos Crash.Ledger Gen.PanicSites Props.C10.
 
 Check (C10_no_panic_div : forall n1 n2, no_panic (op_div n1 n2)).
 Check (C10_no_panic_mod : forall n1 n2, no_panic (op_mod n1 n2)).
@@ -76,5 +76,13 @@ Check (C10_no_panic_toml_import : forall doc, no_panic (from_doc doc)).
 Check (C10_toml_check_protects_conversion : forall i, check_floats i = true -> convert_item i = Val tt).
 Check (C10_toml_check_needs_inline_arm : exists v site,
   check_value_no_inline v = true /\ convert_value v = Panic site).
+Check (C10_annot_positions_set : forall fuel t,
+  pos_of (annot_fix_then_pos fuel t) = true /\ pos_of (annot_pos_then_fix fuel t) = true).
+Check (C10_no_panic_labeled_type : forall fuel t,
+  no_panic (labeled_type_from_ast (annot_fix_then_pos fuel t)) /\
+  no_panic (labeled_type_from_ast (annot_pos_then_fix fuel t))).
+Check (C10_rebuilt_type_needs_position : exists t site,
+  labeled_type_from_ast (fixed_enum_drops_pos 3 (with_pos t)) = Panic site
+  /\ pos_of (with_pos (fixed_enum_drops_pos 3 t)) = true).
 Check (C10_sites_all_covered : forall key line, In (key, line) sites -> exists c, In (key, c) ledger).
 Check (C10_ledger_no_stale : forall key c, In (key, c) ledger -> exists line, In (key, line) sites).
